@@ -431,7 +431,7 @@ func runBC(c *hx.Ctx) {
 	}
 	results := make([]*result, len(scs))
 	var wg sync.WaitGroup
-	sem := make(chan struct{}, 12)
+	sem := make(chan struct{}, 8)
 	for i := range scs {
 		wg.Add(1)
 		sem <- struct{}{}
